@@ -45,6 +45,9 @@ impl Tarjan {
         let mut index = 0;
         let mut num_scc = 0;
 
+        // forget whatever an earlier run left behind
+        self.dfs_state.clear();
+        self.tarjan_stack.clear();
         self.dfs_state
             .resize(graph.number_of_nodes(), DFSNode::new());
 
